@@ -7,7 +7,8 @@ HERE="$(dirname "$(readlink -f "$0")")/.."; cd "$HERE"
 RUNS="${1:-1500}"; shift
 PROPS="${*:-C02 C04 C07 C08 C09 C10 C11 C12 C14 C15 C16 C17 C18 C19}"
 export VERIF_SAN=cov VERIF_EVIDENCE_DIR="$HERE/out/scratch-evidence"
-B=$(./build.sh | tail -1) || exit 2
+OUT=$(./build.sh) || { echo "coverage build failed"; exit 2; }
+B=$(echo "$OUT" | tail -1); [ -d "$B" ] || { echo "coverage build failed"; exit 2; }
 mkdir -p out/reach
 for p in $PROPS; do
   find "$B" -name '*.gcda' -delete
